@@ -130,11 +130,14 @@ fn bad_vec(rng: &mut Rng, dim: usize) -> Vec<f32> {
 }
 
 fn gen_id(rng: &mut Rng) -> u64 {
-    match rng.below(12) {
+    match rng.below(14) {
         0 => 0,
         1 => u32::MAX as u64,
         2 => u32::MAX as u64 + 1,
         3 => u64::MAX,
+        // low 32 bits alone would be a valid id
+        4 => (1u64 << 32) + rng.range(1, 6),
+        5 => (1u64 << 48) | rng.range(1, 6),
         _ => rng.range(1, 6),
     }
 }
@@ -211,8 +214,9 @@ fn gen_search(rng: &mut Rng, c: &Cfg15, poison: bool) -> SearchSpec {
         for _ in 0..rng.range(1, 2) {
             match rng.below(6) {
                 0 => s.q = bits(&bad_vec(rng, c.dim)),
-                1 => s.k = *rng.pick(&[0u32, 1000, 1001, u32::MAX, 999]),
-                2 => s.ef = *rng.pick(&[1u32, 10_000, 10_001, u32::MAX]),
+                // besides the bounds themselves: values whose low 8 / 16 / 20 bits alone would be in range
+                1 => s.k = *rng.pick(&[0u32, 1000, 1001, u32::MAX, 999, 256, 65_536, 65_537, 65_536 + 1000, 131_072, (1 << 20) | 3, 1 << 20]),
+                2 => s.ef = *rng.pick(&[1u32, 10_000, 10_001, u32::MAX, 65_536, 65_536 + 10, 65_536 + 10_000, (1 << 20) | 64]),
                 3 => s.min_score = rng.pick(&[f32::NAN, f32::INFINITY, f32::NEG_INFINITY, 2.0, -1.0, 1e-40]).to_bits(),
                 4 => s.filter = Some(gen_filter15(rng)),
                 _ => {
